@@ -19,7 +19,7 @@ FINALS = ["K-", "pi+", "pi-", "K+"]
 RES2 = ["K*(892)bar0", "rho(770)0", "rho(1450)0", "omega(782)0", "KPi00", "PiPi00", "PiPi10", "phi(1020)0", "f(0)(980)0", "K*(892)0", "f(2)(1270)0"]
 RES3 = ["K(1)(1270)bar-", "K(1)(1400)bar-", "K(1460)bar-", "a(1)(1260)+", "K(2)*(1430)bar-", "K(1)(1270)+", "a(1)(1260)-"]
 SPIN = [None, "S", "P", "D"]
-LSTAG = [None, "GSpline.EFF", "kMatrix.pole.1", "FOCUS.Kpi", "BW", "kMatrix.prod.0", "FOCUS.I32"]
+LSTAG = [None, "GSpline.EFF", "kMatrix.pole.1", "FOCUS.Kpi", "BW", "kMatrix.prod.0", "FOCUS.I32", "SBW", "PolyNR.1", "DD", "Poly.2"]     # also names that begin with a spin letter
 EVENT_TYPES = [["D0", "K-", "pi+", "pi+", "pi-"], ["D0", "pi+", "pi-", "pi+", "pi-"], ["D0", "K+", "K-", "pi+", "pi-"], ["D0", "K-", "pi+", "pi0"],
                ["D0", "K-", "pi+", "pi+", "pi+"]]        # the last one: a particle three times (3! assignments)
 
@@ -187,7 +187,7 @@ def gen_model(rng):
     rng.shuffle(lines)
     for ln in lines:
         mag = round(rng.uniform(0.1, 2), 4) if rng.random() < 0.88 else rng.choice(["4.2e-09", "1e-12", "7.5E-10", "3e-5", "1250.5"])      # also very small couplings
-        pha = round(rng.uniform(-3.1, 3.1), 4) if rng.random() < 0.88 else rng.choice(["1e-09", "-1e-10", "3.14159265", "0", "-3.1415926535", "6.5e-7"])   # phases next to 0 and pi
+        pha = round(rng.uniform(-3.1, 3.1), 4) if rng.random() < 0.88 else rng.choice(["1e-09", "-1e-10", "3.14159265", "0", "-3.1415926535", "6.5e-7", "1e12", "-7.5e15", "123456.789"])   # phases next to 0 and pi, and many turns away
         ln["nums"] = (rng.choice([0, 2, "2.0", "0.0", 3, "0.", "+0", "00"]), mag, round(rng.uniform(0, 0.1), 4),
                       rng.choice([0, 2, "2.0", "+2", "0.0"]), pha, round(rng.uniform(0, 0.1), 4))
     params = []
@@ -400,7 +400,7 @@ def resonances(node):
     return out
 
 
-def gen_fourbody(rng, event_idx=None, picks=None, namps=None, dangle=True):
+def gen_fourbody(rng, event_idx=None, picks=None, namps=None, dangle=True, template=None):
     """Abstract four-body option file over the supported spin structures.  picks: [(family, wave, lineshape kind)] to force."""
     event_idx = rng.choice([0, 1, 2, 4]) if event_idx is None else event_idx
     event = list(EVENT_TYPES[event_idx])
@@ -419,7 +419,7 @@ def gen_fourbody(rng, event_idx=None, picks=None, namps=None, dangle=True):
     for fam, wave, lsk in picks:
         if fam not in fams:
             continue
-        t = rng.choice(fams[fam])
+        t = rng.choice(fams[fam]) if template is None else fams[fam][template % len(fams[fam])]
         txt = t % wave if "%s" in t else t
         if txt in seen:
             continue
@@ -471,12 +471,13 @@ def gen_fourbody(rng, event_idx=None, picks=None, namps=None, dangle=True):
     rng.shuffle(lines)
     for ln in lines:
         free = rng.random() < 0.5
-        ln["nums"] = ((0 if free else 2), round(rng.uniform(0.1, 2), 5), round(rng.uniform(0.001, 0.1), 5),
+        mag = round(rng.uniform(0.1, 2), 5) if rng.random() < 0.85 else rng.choice(["2.5e-09", "1e-300", "7.25e-13", "3.3e-7"])       # also very small couplings
+        ln["nums"] = ((0 if free else 2), mag, round(rng.uniform(0.001, 0.1), 5),
                       (0 if free else 2), round(rng.uniform(-3.1, 3.1), 5), round(rng.uniform(0.001, 0.1), 5))
     params, consts = [], []
     allres = [r for ln in lines for r in resonances(ln["node"])]
     for nm in sorted({r.name for r in allres if r.ls == "GSpline.EFF"}):
-        n = rng.choice([3, 4, 5])
+        n = rng.choice([3, 4, 5, 5, 12, 40, 120])      # the shipped model has 40 bins; three-digit indices as well
         consts += [(f"{nm}::Spline::Min", "0.6"), (f"{nm}::Spline::Max", rng.choice(["3", "1.9"])), (f"{nm}::Spline::N", str(n))]
         order = list(range(n))
         rng.shuffle(order)
